@@ -1,0 +1,52 @@
+//! Verification hook: structural dump of a world (read-only).
+
+use super::World;
+use crate::{
+    registry,
+    verif::{
+        Dump,
+        SlotDump,
+    },
+};
+use alloc::vec::Vec;
+
+impl<Registry, Resources> World<Registry, Resources>
+where
+    Registry: registry::Registry,
+{
+    /// Dump the internal structure of this world.
+    #[must_use]
+    pub fn verif_dump(&self) -> Dump {
+        let mut dump = Dump {
+            len: self.len,
+            ..Dump::default()
+        };
+        self.archetypes.verif_dump(&mut dump);
+        let table_of = |address: usize| -> i64 {
+            dump.tables
+                .iter()
+                .position(|table| table.key == address)
+                .map_or(-1, |position| position as i64)
+        };
+        let mut slots = Vec::new();
+        for slot in &self.entity_allocator.slots {
+            slots.push(match slot.location {
+                Some(location) => SlotDump {
+                    generation: slot.generation,
+                    active: true,
+                    table: table_of(location.identifier.verif_address()),
+                    row: location.index,
+                },
+                None => SlotDump {
+                    generation: slot.generation,
+                    active: false,
+                    table: -2,
+                    row: 0,
+                },
+            });
+        }
+        dump.slots = slots;
+        dump.free = self.entity_allocator.free.iter().copied().collect();
+        dump
+    }
+}
